@@ -243,10 +243,12 @@ class Check(CheckBase):
                 violations.append({'what': f'{passed} bytes passed in a window of {t1 - t0:.4f}s: {passed - L * (t1 - t0):.0f} above L*T, '
                                            f'allowance {allowance:.0f} ({N} stream(s), latency {case["latency"]}, L={L})',
                                    'mechanism': mech, 'witness': dict(w, window=(t0, t1), rate=passed / (t1 - t0) if t1 > t0 else None)})
-            if len(violations) > 3:
+            if sum(1 for x in violations if not x['mechanism']) > 3:
                 break
+        violations.sort(key=lambda x: x['mechanism'] is not None)
+        kept = [x for x in violations if not x['mechanism']][:3] + [x for x in violations if x['mechanism']][:1]
         return {'verdict': 'violated' if violations else 'held', 'classes': sorted(classes), 'counters': counters,
-                'violations': violations[:3]}
+                'violations': kept}
 
     # -------------------------------------------------------------------------------------------------
     def _transparent(self, case):
